@@ -232,24 +232,28 @@ func checkAllBlocksSummed(p *Prog, r *Report) {
 		r.Unk(rule, "generateAndSendSums", "-", "anchor not found")
 		return
 	}
+	g := p.ModGraph()
+	unit := g.unitFuncs(gen) // generateAndSendSums and the receiver functions it was split into
 	var sizes *ssa.Call
 	var headWrite, rf, c1, c2 ssa.CallInstruction
-	allCalls(gen, func(c ssa.CallInstruction) {
-		switch calleeName(c) {
-		case pkgCommon + ".SumSizesSqroot":
-			if call, ok := c.(*ssa.Call); ok {
-				sizes = call
+	for _, u := range unit {
+		allCalls(u, func(c ssa.CallInstruction) {
+			switch calleeName(c) {
+			case pkgCommon + ".SumSizesSqroot":
+				if call, ok := c.(*ssa.Call); ok {
+					sizes = call
+				}
+			case "(*" + modPath + ".SumHead).WriteTo":
+				headWrite = c
+			case "io.ReadFull":
+				rf = c
+			case pkgChecksum + ".Checksum1":
+				c1 = c
+			case pkgChecksum + ".Checksum2":
+				c2 = c
 			}
-		case "(*" + modPath + ".SumHead).WriteTo":
-			headWrite = c
-		case "io.ReadFull":
-			rf = c
-		case pkgChecksum + ".Checksum1":
-			c1 = c
-		case pkgChecksum + ".Checksum2":
-			c2 = c
-		}
-	})
+		})
+	}
 	pos := p.Pos(gen.Pos())
 	if sizes == nil || headWrite == nil || rf == nil || c1 == nil || c2 == nil {
 		r.Bad(rule, "generateAndSendSums shape", pos, "SumSizesSqroot / SumHead.WriteTo / io.ReadFull / Checksum1 / Checksum2 are not all called here")
@@ -265,13 +269,38 @@ func checkAllBlocksSummed(p *Prog, r *Report) {
 		}
 	}
 	r.Cond(hdrOK, rule, "header written is SumSizesSqroot(fileLen)", p.Pos(instrPos(headWrite)), "the SumHead that is sent is not the one the block loop is bounded by")
-	// loop: ReadFull, Checksum1, Checksum2 in one loop whose condition compares with ChecksumCount
-	loops := naturalLoops(gen)
+	// where an instruction of a split-out helper sits in the function that holds the loop
+	host := rf.Parent()
+	siteIn := func(c ssa.CallInstruction) []*ssa.BasicBlock {
+		if c.Parent() == host {
+			return []*ssa.BasicBlock{c.Block()}
+		}
+		var out []*ssa.BasicBlock
+		allCalls(host, func(hc ssa.CallInstruction) {
+			if hc.Common().StaticCallee() == c.Parent() {
+				out = append(out, hc.Block())
+			}
+		})
+		return out
+	}
+	loops := naturalLoops(host)
 	ls := loopsContaining(loops, rf.Block())
 	loopOK := false
 	if len(ls) > 0 {
 		li := ls[0]
-		if li.body[c1.Block()] && li.body[c2.Block()] {
+		in := func(c ssa.CallInstruction) bool {
+			bs := siteIn(c)
+			if len(bs) == 0 {
+				return false
+			}
+			for _, b := range bs {
+				if !li.body[b] {
+					return false
+				}
+			}
+			return true
+		}
+		if in(c1) && in(c2) {
 			for b := range li.body {
 				if ifi, ok := lastInstr(b).(*ssa.If); ok {
 					if bo, ok := ifi.Cond.(*ssa.BinOp); ok && bo.Op == token.LSS {
@@ -284,28 +313,41 @@ func checkAllBlocksSummed(p *Prog, r *Report) {
 		}
 	}
 	r.Cond(loopOK, rule, "block loop bounded by sh.ChecksumCount", p.Pos(instrPos(rf)), "the read and the two checksums are not in one loop whose condition is i < sh.ChecksumCount")
-	// same bytes
+	// same bytes: the checksum argument is the slice ReadFull filled, directly or as the helper's parameter
 	buf := rf.Common().Args[1]
-	same := sameCore(c1.Common().Args[0], buf) && sameCore(c2.Common().Args[1], buf)
+	isBuf := func(v ssa.Value) bool {
+		if sameCore(v, buf) {
+			return true
+		}
+		for _, root := range g.paramRoots(v, 0) {
+			if sameCore(root, buf) {
+				return true
+			}
+		}
+		return false
+	}
+	same := isBuf(c1.Common().Args[0]) && isBuf(c2.Common().Args[1])
 	r.Cond(same, rule, "both checksums cover the bytes just read", p.Pos(instrPos(c1)), "Checksum1/Checksum2 are not computed over the slice io.ReadFull filled")
 	// both written
 	wrote1, wrote2 := false, false
-	allCalls(gen, func(c ssa.CallInstruction) {
-		switch {
-		case calleeName(c) == "(*"+pkgWire+".Conn).WriteInt32":
-			if derivesFrom(stripConv(c.Common().Args[1]), c1.Value()) {
-				wrote1 = true
+	for _, u := range unit {
+		allCalls(u, func(c ssa.CallInstruction) {
+			switch {
+			case calleeName(c) == "(*"+pkgWire+".Conn).WriteInt32":
+				if derivesFrom(stripConv(c.Common().Args[1]), c1.Value()) {
+					wrote1 = true
+				}
+			case c.Common().IsInvoke() && c.Common().Method.Name() == "Write":
+				a := c.Common().Args[0]
+				if sl, ok := a.(*ssa.Slice); ok {
+					a = sl.X
+				}
+				if a == c2.Value() {
+					wrote2 = true
+				}
 			}
-		case c.Common().IsInvoke() && c.Common().Method.Name() == "Write":
-			a := c.Common().Args[0]
-			if sl, ok := a.(*ssa.Slice); ok {
-				a = sl.X
-			}
-			if a == c2.Value() {
-				wrote2 = true
-			}
-		}
-	})
+		})
+	}
 	r.Cond(wrote1 && wrote2, rule, "both checksums are written", p.Pos(instrPos(c2)), "the weak or the strong checksum of a block is not written to the connection")
 }
 
